@@ -554,3 +554,102 @@ func execAccept(f []string) vlib.Res {
 	}
 	return vlib.Res{Impl: "admitted=" + vlib.B(ok), Oracle: or, Tags: "nt"}
 }
+
+// ---------------------------------------------------------------- conncap / fill / dialer
+
+// execConnCap: conncap <cap> <burst> — the REAL accept loop with a connection cap: a burst over the cap, everybody leaves, a late client connects.
+func execConnCap(f []string) vlib.Res {
+	if len(f) == 2 && f[1] == "new" {
+		return vlib.Res{Impl: "ok"}
+	}
+	if len(f) != 3 {
+		return vlib.Res{Impl: "bad-op"}
+	}
+	capN, burst := vlib.Atoi(f[1]), vlib.Atoi(f[2])
+	adm, after, late := server.VerifC11ConnCap(capN, burst, 3*time.Second)
+	or := "ok"
+	switch {
+	case after != 0:
+		or = fmt.Sprintf("FAIL sig=conncap/connection-slot-leaked-by-refusal active=%d with nobody connected cap=%d burst=%d", after, capN, burst)
+	case !late:
+		or = fmt.Sprintf("FAIL sig=conncap/client-refused-after-load-stopped cap=%d burst=%d", capN, burst)
+	case adm > capN:
+		or = fmt.Sprintf("FAIL sig=conncap/cap-exceeded admitted=%d cap=%d", adm, capN)
+	}
+	return vlib.Res{Impl: fmt.Sprintf("admitted=%d refused=%d after=%d next=%s", adm, burst-adm, after, vlib.B(late)), Oracle: or, Tags: "nt"}
+}
+
+// execFill: fill <start> <end> <avail> — the REAL tcpStream.fillMore with bytes [start,end) unread.
+func execFill(f []string) vlib.Res {
+	if len(f) == 2 && f[1] == "new" {
+		return vlib.Res{Impl: "ok"}
+	}
+	if len(f) != 4 {
+		return vlib.Res{Impl: "bad-op"}
+	}
+	start, end, avail := vlib.Atoi(f[1]), vlib.Atoi(f[2]), vlib.Atoi(f[3])
+	ns, ne, errs, size := server.VerifC11FillMore(start, end, avail)
+	if end > size {
+		end = size
+	}
+	unread := end - start
+	or := "ok"
+	switch {
+	case unread < size && avail > 0 && errs != "":
+		// there was room for more (the unread part is smaller than the buffer) and the client had bytes ready
+		or = fmt.Sprintf("FAIL sig=fill/refill-refused-with-room-left start=%d end=%d unread=%d size=%d err=%s", start, end, unread, size, errs)
+	case errs == "" && ne-ns <= unread:
+		or = fmt.Sprintf("FAIL sig=fill/no-progress unread=%d now=%d", unread, ne-ns)
+	}
+	got := ne - ns - unread
+	if errs != "" {
+		got = 0
+	}
+	return vlib.Res{Impl: fmt.Sprintf("start=%d read=%d err=%s", ns, got, map[bool]string{true: "-", false: errs}[errs == ""]), Oracle: or, Tags: "nt"}
+}
+
+// execDialer: dialer <n_ips> <reqid> <tcp|udp> — which configured outbound address newDialer binds for a client message id.
+var (
+	dialR   *resolver.Resolver
+	dialH   *resolver.DNSHandler
+	dialN   int
+	dialDir string
+)
+
+func execDialer(f []string) vlib.Res {
+	if len(f) == 2 && f[1] == "new" {
+		return vlib.Res{Impl: "ok"}
+	}
+	if len(f) != 4 {
+		return vlib.Res{Impl: "bad-op"}
+	}
+	n, id := vlib.Atoi(f[1]), vlib.Atoi(f[2])
+	if dialR == nil || dialN != n {
+		if dialH != nil {
+			dialH.Stop()
+			_ = os.RemoveAll(dialDir)
+		}
+		base := os.Getenv("VERIF_DIR")
+		if base == "" {
+			base = "/verif"
+		}
+		_ = os.MkdirAll(base+"/build/tmp-c11", 0o750)
+		dialDir, _ = os.MkdirTemp(base+"/build/tmp-c11", "dial")
+		cfg := new(config.Config)
+		cfg.Directory = dialDir
+		cfg.RootServers = []string{"192.0.2.1:53"}
+		cfg.DNSSEC = "off"
+		for i := 0; i < n; i++ {
+			cfg.OutboundIPs = append(cfg.OutboundIPs, fmt.Sprintf("127.0.0.%d", i+1))
+		}
+		dialH = resolver.New(cfg)
+		dialR = resolver.VerifResolver(dialH)
+		dialN = n
+	}
+	idx, conf := resolver.VerifC11DialerIndex(dialR, uint16(id), f[3]) // a panic here is reported by vlib as FAIL sig=panic
+	or := "ok"
+	if conf > 0 && (idx < 0 || idx >= conf) {
+		or = fmt.Sprintf("FAIL sig=dialer/outbound-address-out-of-range id=%d n=%d", id, conf)
+	}
+	return vlib.Res{Impl: fmt.Sprintf("index=%d", idx), Oracle: or, Tags: "nt"}
+}
